@@ -81,7 +81,7 @@ extern int mpt_output_vlog(MPT_INTERFACE(output) *out, const char *from, int typ
 			return 0;
 		}
 		if (len >= rem) {
-			len = rem; /* chop trailing data */
+			len = rem - 1; /* chop trailing data, buffer end is string termination */
 		}
 		else if (from) {
 			buf[len++] = 0x3; /* ETX, message complete */
